@@ -55,6 +55,7 @@ pub struct Sched {
     core: Mutex<Core>,
     cv: Condvar,
     atomics: bool, // interleave at atomic load/store/rmw granularity too (C07)
+    wpref: bool,   // write-preferring RwLock (the futex implementation behind std::sync::RwLock): a reader does not get in while a writer is waiting
 }
 
 fn short(label: &str) -> &'static str {
@@ -171,6 +172,24 @@ impl Observer for Sched {
     }
 }
 
+fn enabled_w(core: &Core, id: usize, wpref: bool) -> Option<&'static str> {
+    if wpref {
+        if let Some(t) = core.threads.get(&id) {
+            if t.state == TState::Parked {
+                if let Pending::Step(ev) = &t.pending {
+                    if ev.op == Op::Read {
+                        // a writer parked on the same lock goes first - also when this thread holds a read guard already (which is how a recursive read deadlocks)
+                        let writer_waiting = core.threads.iter().any(|(j, o)| *j != id && o.state == TState::Parked && matches!(&o.pending, Pending::Step(e) if e.op == Op::Write && e.obj == ev.obj));
+                        let held_by_others_or_me = core.rw_readers.get(&ev.obj).map(|s| !s.is_empty()).unwrap_or(false) || core.rw_writer.contains_key(&ev.obj);
+                        if writer_waiting && held_by_others_or_me { return None; }
+                    }
+                }
+            }
+        }
+    }
+    enabled(core, id)
+}
+
 fn enabled(core: &Core, id: usize) -> Option<&'static str> {
     let t = core.threads.get(&id)?;
     if t.state != TState::Parked { return None; }
@@ -281,7 +300,7 @@ pub fn run_program(prog: &Value, out: &mut dyn Write) {
     let sched = Arc::new(Sched { core: Mutex::new(Core {
         threads: BTreeMap::new(), os2id: std::collections::HashMap::new(), spawn2id: BTreeMap::new(), next_ticker: 0, mutex_owner: BTreeMap::new(), rw_writer: BTreeMap::new(),
         rw_readers: BTreeMap::new(), notified: BTreeSet::new(), exited: BTreeSet::new(), labels: BTreeMap::new(), log: vec![], calls: BTreeMap::new() }), cv: Condvar::new(),
-        atomics: prog["atomics"].as_bool().unwrap_or(false) });
+        atomics: prog["atomics"].as_bool().unwrap_or(false), wpref: prog["wpref"].as_bool().unwrap_or(false) });
 
     // every panic in this process is counted (the ticker threads have no catch_unwind of ours around them)
     use std::sync::atomic::{AtomicUsize, Ordering};
@@ -395,7 +414,7 @@ pub fn run_program(prog: &Value, out: &mut dyn Write) {
         let all_done = core.threads.values().all(|t| t.state == TState::Done);
         if all_done { result = json!({"result": "ok"}); break; }
         let ids: Vec<usize> = core.threads.keys().copied().collect();
-        let en: Vec<(usize, &'static str)> = ids.iter().filter_map(|i| enabled(&core, *i).map(|k| (*i, k))).collect();
+        let en: Vec<(usize, &'static str)> = ids.iter().filter_map(|i| enabled_w(&core, *i, sched.wpref).map(|k| (*i, k))).collect();
         let solid: Vec<usize> = en.iter().filter(|(_, k)| *k != "timeout").map(|(i, _)| *i).collect();
         if solid.is_empty() {
             let blocked: Vec<Value> = ids.iter().filter(|i| core.threads[i].state == TState::Parked).map(|i| describe(&core, *i)).collect();
